@@ -510,6 +510,9 @@ class ResetInterp:
             if lo is not None and hi is not None:
                 cx.env[tg.id] = ('aff', cx.newsym(tg.id, lo, hi if endpoint else hi - 1))
                 return None
+        tl = self._tagged(tg, val, cx)
+        if tl:
+            return None
         if isinstance(val, ast.Call) and src(val.func) in ('np.linspace', 'numpy.linspace') and \
                 isinstance(tg, ast.Name) and len(val.args) >= 2:
             # integer split points from A to B (both included); strictly increasing once the
@@ -728,6 +731,84 @@ class ResetInterp:
             if isinstance(n, ast.Name) and isinstance(n.ctx, ast.Store):
                 cx.env[n.id] = None
 
+    def _tagged(self, tg: ast.AST, val: ast.AST, cx: Ctx) -> bool:
+        """lists of (token, coordinate) pairs and what is selected from them:
+        `a, b = object(), object()` are tokens; `list(chain(((a, i) for i in range(..)),
+        ((b, j) for j in range(..))))` is a tagged list with one coordinate interval per
+        token; shuffling, slicing, sorting and copying keep a subset of its elements;
+        `[p for t, p in L if t is a]` is a list of coordinates inside a's interval
+        ('rangelist', lo, hi).  Returns True when the assignment was understood."""
+        if isinstance(tg, ast.Tuple) and isinstance(val, ast.Tuple) and \
+                len(tg.elts) == len(val.elts) and \
+                all(isinstance(t, ast.Name) for t in tg.elts) and \
+                all(src(v) == 'object()' for v in val.elts):
+            for t in tg.elts:
+                cx.env[t.id] = ('tok', t.id)
+            return True
+        if not isinstance(tg, ast.Name):
+            return False
+        if src(val) == 'object()':
+            cx.env[tg.id] = ('tok', tg.id)
+            return True
+
+        def tagged(e) -> Optional[list]:
+            if isinstance(e, ast.Name):
+                v = cx.env.get(e.id)
+                return v[1] if isinstance(v, tuple) and v[0] == 'taglist' else None
+            if isinstance(e, ast.Subscript) and isinstance(e.slice, ast.Slice):
+                return tagged(e.value)             # any slice keeps a subset
+            if isinstance(e, ast.Call):
+                fs = src(e.func)
+                if fs in ('list', 'tuple', 'sorted') and len(e.args) == 1:
+                    return tagged(e.args[0])
+                if fs == 'shuffle' and len(e.args) == 2:
+                    return tagged(e.args[1])
+                if fs in ('itt.chain', 'itertools.chain', 'chain'):
+                    out = []
+                    for a in e.args:
+                        t = tagged(a)
+                        if t is None:
+                            return None
+                        out += t
+                    return out
+            if isinstance(e, (ast.GeneratorExp, ast.ListComp)) and len(e.generators) == 1 and \
+                    not e.generators[0].ifs and isinstance(e.elt, ast.Tuple) and \
+                    len(e.elt.elts) == 2 and isinstance(e.elt.elts[0], ast.Name) and \
+                    isinstance(cx.env.get(e.elt.elts[0].id), tuple) and \
+                    cx.env[e.elt.elts[0].id][0] == 'tok' and \
+                    src(e.elt.elts[1]) == src(e.generators[0].target):
+                rg = e.generators[0].iter
+                lo, hi = self._range_bounds(rg, cx)
+                if lo is not None and hi is not None:
+                    # with a step the last element is below the bound: proofs only
+                    exact = isinstance(rg, ast.Call) and (
+                        len(rg.args) < 3 or (isinstance(rg.args[2], ast.Constant)
+                                             and rg.args[2].value == 1))
+                    return [(e.elt.elts[0].id, lo, hi, exact)]
+            return None
+        t = tagged(val)
+        if t is not None:
+            cx.env[tg.id] = ('taglist', t)
+            return True
+        v = val
+        if isinstance(v, ast.Call) and src(v.func) in ('sorted', 'list') and len(v.args) == 1:
+            v = v.args[0]
+        if isinstance(v, ast.ListComp) and len(v.generators) == 1:
+            g = v.generators[0]
+            base = tagged(g.iter)
+            if base is not None and isinstance(g.target, ast.Tuple) and \
+                    len(g.target.elts) == 2 and src(v.elt) == src(g.target.elts[1]) and \
+                    len(g.ifs) == 1 and isinstance(g.ifs[0], ast.Compare) and \
+                    len(g.ifs[0].ops) == 1 and isinstance(g.ifs[0].ops[0], (ast.Is, ast.Eq)) and \
+                    src(g.ifs[0].left) == src(g.target.elts[0]) and \
+                    isinstance(g.ifs[0].comparators[0], ast.Name):
+                tok = g.ifs[0].comparators[0].id
+                sel = [(lo, hi, ex) for (tname, lo, hi, ex) in base if tname == tok]
+                if len(sel) == 1 and len({t_[0] for t_ in base}) == len(base):
+                    cx.env[tg.id] = ('rangelist', sel[0][0], sel[0][1], sel[0][2])
+                    return True
+        return False
+
     def _split_loop(self, s: ast.For, cx: Ctx, f: Func) -> bool:
         """`for v in S[1:-1]` and `for a, b in pairwise(S)` over strictly increasing integer
         split points S (from A to B): the loop variables become symbols with the bounds every
@@ -809,7 +890,11 @@ class ResetInterp:
                 if isinstance(it, ast.Name):
                     d = cx.env.get(it.id)
                     if isinstance(d, tuple) and d[0] == 'rangelist':
-                        return d[1], d[2]
+                        # one symbol for "some element of the list": a box drawn at it is
+                        # proved apart from a cell through the symbol's bounds, and refuted
+                        # only when the bounds are exact
+                        sy = cx.newsym(e.id, d[1], d[2], exact=d[3])
+                        return sy, sy
                 lo, hi = self._range_bounds(it, cx)
                 return lo, hi
             return None, None
